@@ -135,7 +135,7 @@ func c06Scenarios(tier string) []*Scenario {
 		scs = append(scs, &Scenario{
 			Name: "c06/raw-client/" + o.String(), Prop: "C06",
 			Desc: "scripted client opens streams 1 (Bidi, handler reads the first message only) and 2 (Bidi bystander) on a real flow-controlled server, fills stream 1's 64 KiB window and overruns it: " + o.String(),
-			Opt:  c06Opt(o, bound),
+			Opt:  c06Opt(o, bound), Heavy: o.delta == 0 && o.consumed > 0,
 			Run: func(w *World) {
 				h := grpctunnel.NewTunnelServiceHandler(grpctunnel.TunnelServiceHandlerOptions{})
 				h.RegisterService(&TestSvcDesc, &TestServer{W: w, Name: "fwd"})
@@ -179,6 +179,7 @@ func c06Scenarios(tier string) []*Scenario {
 						}
 					}
 					w.Vals["hangup-after-digest"] = digested
+					w.Log(Event{Actor: "env", Op: "hangup"})
 					w.Vals["hangup"] = true
 				})
 				peer := w.GoPeer("rawclient", func() {
@@ -263,7 +264,24 @@ func c06Scenarios(tier string) []*Scenario {
 				if len(cl1) == 0 && (!hung || w.Vals["hangup-after-digest"] == true) {
 					bad("overrun-fails-that-rpc", "overrun:no-close", "the overrunning stream was never closed (the peer gave up only when nothing else could happen)")
 				}
-				if len(cl1) == 1 && codes.Code(cl1[0].GetStatus().GetCode()) != codes.ResourceExhausted {
+				// a peer that hung up before the stream was closed ended the whole tunnel: the RPC
+				// then ends as any RPC of a dying tunnel does
+				hungBeforeClose := false
+				if hung {
+					hs, cs := -1, 1<<60
+					for _, e := range w.EventsOf("env") {
+						if e.Op == "hangup" {
+							hs = e.Step
+						}
+					}
+					for _, f := range w.Tap.Frames {
+						if m, ok := f.Msg.(*tunnelpb.ServerToClient); ok && m.StreamId == 1 && m.GetCloseStream() != nil {
+							cs = f.Step
+						}
+					}
+					hungBeforeClose = hs >= 0 && hs < cs
+				}
+				if len(cl1) == 1 && !hungBeforeClose && codes.Code(cl1[0].GetStatus().GetCode()) != codes.ResourceExhausted {
 					bad("overrun-fails-that-rpc", "overrun:wrong-code:"+codes.Code(cl1[0].GetStatus().GetCode()).String(), fmt.Sprintf("the overrunning stream was closed with %s(%s)", codes.Code(cl1[0].GetStatus().GetCode()), cl1[0].GetStatus().GetMessage()))
 				}
 				if !hung && (len(cl2) != 1 || codes.Code(cl2[0].GetStatus().GetCode()) != codes.OK) {
@@ -277,7 +295,7 @@ func c06Scenarios(tier string) []*Scenario {
 		scs = append(scs, &Scenario{
 			Name: "c06/raw-server/" + o.String(), Prop: "C06",
 			Desc: "real flow-controlled client runs Bidi RPC r1 (reads only the first message) and bystander r2 against a scripted server that fills r1's 64 KiB response window and overruns it: " + o.String(),
-			Opt:  c06Opt(o, bound),
+			Opt:  c06Opt(o, bound), Heavy: o.delta == 0 && o.consumed > 0,
 			Run: func(w *World) {
 				w.Invariants = append(w.Invariants, func() string {
 					wins, _ := w.ReceiverWindows()
@@ -291,7 +309,7 @@ func c06Scenarios(tier string) []*Scenario {
 				n := w.NewRawServerNet("T", true, func(c *RawServerConn) error {
 					_ = c.Send(fSettings(-1, o.peerWin, 0, 1))
 					ids := map[string]int64{}
-					got := 0 // request data bytes of r1 seen so far
+					got := 0            // request data bytes of r1 seen so far
 					cancelled1 := false // the caller gave r1 up: no more credit will come
 					for len(ids) < 2 {
 						m, err := c.Recv()
